@@ -117,3 +117,11 @@ def req_meta_bytes(cfg, img, off, ln):
     if cfg["kind"] == "stream":  # compressed grains are read whole (plus their marker sector)
         extra = (ln // (cfg["grain"] * 512) + 2) * (cfg["grain"] * 512 + 1024)
     return tables * cfg["gtes"] * esz + extra
+
+
+def meta_model(cfg):
+    if cfg['kind'] == 'flat':
+        return (1 << 62, 0, 0)
+    esz = 8 if cfg['kind'] == 'sesparse' else 4
+    return (cfg['grain'] * cfg['gtes'] * 512, cfg['gtes'] * esz, 0)
+    # (guest bytes covered by one second-level table, bytes of one such table, bytes of the top-level table read lazily)
